@@ -14,21 +14,21 @@ NOTE = ("trusted: go/packages+go/ssa lowering, govc itself, the SMT solvers; ass
 
 P = {
  "C01": ("Contracts on the real mutation path, discharged for every input: validTimestamp, getFamily/getColumn, getOrCreateFamily/Column (row invariants rowOK/famSep/colSep/rowDesc preserved), appendOrReplaceCell (cells stay strictly descending, no duplicate timestamp), applyMutations (error iff some mutation is invalid per the API rules - unknown family, bad timestamp, inverted range, unknown kind -, row invariants kept, in-place compaction of DeleteFromColumn), scrubFam/scrubRow (no empty column or family survives, survivors are input families, columns sorted), updateRow as the only commit point (ghost commit counter), MutateRow/MutateRows (entry status OK iff all mutations of the entry are valid, commit only then, exactly once). The induction over request sequences is argued in DESIGN.md, not mechanised", "6 C01, 10"),
- "C02": ("Contracts of the upload/download handlers: finishUpload MD5 gate and store gating behind a successful validateConds in the same key-lock section, resumable upload assembly (a chunk with range [lo,hi] is appended at offset lo exactly, carries hi+1-lo bytes; slice bounds for every Content-Range), parseByteRange, multipart parsing safety, media download paths, delete; routing by regexp, HTTP framing, gzip/multipart libraries are trusted", "6 C02, 10"),
- "C03": ("validateRowRanges (error iff some range is malformed), mergeSimpleRanges/mergeRowRanges (union preserved for an arbitrary rigid key, output ordered and disjoint, closed/open bounds via the successor lemma that is proved each run), chunkBuilder.add (shape of the chunk stream, commit flag only on the last chunk, result iff something appended), ReadRows/SampleRowKeys: NotFound/InvalidArgument, limit accounting, lock discipline incl. the lock reversal while sending", "6 C03, 10"),
+ "C02": ("Contracts of the upload/download handlers: finishUpload MD5 gate and store gating behind a successful validateConds in the same key-lock section, resumable upload assembly (a chunk with range [lo,hi] is appended at offset lo exactly, carries hi+1-lo bytes; slice bounds for every Content-Range), parseByteRange, multipart parsing safety, the contents handed to finishUpload are exactly what the single read of the request body returned (io.ReadAll on r.Body / readMultipartInsert), media download paths, delete; routing by regexp, HTTP framing, gzip/multipart libraries are trusted", "6 C02, 10"),
+ "C03": ("validateRowRanges (error iff some range is malformed), mergeSimpleRanges/mergeRowRanges (union preserved for an arbitrary rigid key, output ordered and disjoint, closed/open bounds via the successor lemma that is proved each run), chunkBuilder.add (shape of the chunk stream, commit flag only on the last chunk, result iff something appended), ReadRows/SampleRowKeys: NotFound/InvalidArgument, every merged range is scanned exactly once, in order, with exactly its bounds, limit accounting, lock discipline incl. the lock reversal while sending", "6 C03, 10"),
  "C04": ("validateConds proved against the complete truth table of the property for all int64 generations/metagenerations; parseConds parses each parameter or fails; status mapping; every store mutation of every handler requires a successful validateConds on the object read inside the same key-lock section (protocol ghosts gcsReadEpoch/gcsReadObj/gcsValidEpoch on GetMeta/validateConds/Add/UpdateMeta/Delete/locks.Run)", "6 C04, 10"),
  "C05": ("includeCell (column/value/timestamp range semantics with open/closed/unset ends, regex kinds), filterCells, modifyCell, newRegexp/escapeUTF, scrubFam/scrubRow fully discharged; filterRow: argument validation (InvalidArgument for false pass/block, <2 sub-filters, negative counts, bad sample probability), cells-per-column/row limit and offset semantics, chain via the recursive contract, valid leaf filters never fail, row-key regex, panic-freedom outside the Interleave merge; the Interleave merge loops and some frame clauses are listed as not claimed; regexp semantics trusted; the data-dependent validation of per-cell filter arguments is an open known finding", "6 C05, 10"),
- "C06": ("Sequential / thread-modular kernel only: failure atomicity (updateRow unreachable on error paths, commit counter), reads are private deep-fresh copies (rowFresh), lock discipline (guard/balance/lock-order obligations), and the read protocol: a row is written back only in the critical section (epoch) in which the thread's last store read began, only a row object allocated in that critical section (protocol ghost btReadEpoch, csStart()), and never while an iteration over the rows is in progress (btIterating); the gc write-back after lock reversal violates it and is an open known finding; the linearizability theorem itself is argued from these premises, not machine-checked", "6 C06, 7.2, 10"),
+ "C06": ("Sequential / thread-modular kernel only: failure atomicity (updateRow unreachable on error paths, commit counter), reads are private deep-fresh copies (rowFresh), lock discipline (guard/balance/lock-order obligations), and the read protocol: a row is written back only in the critical section (epoch) in which the thread's last store read began, only a row object allocated in that critical section (protocol ghost btReadEpoch, csStart()), and never while an iteration over the rows is in progress (btIterating); the linearizability theorem itself is argued from these premises, not machine-checked", "6 C06, 7.2, 10"),
  "C07": ("Lock-discipline kernel only: every object mutation inside locks.Run on the key of the mutated object, check-then-act in one key critical section (validated protocol, see C04), memstore registry and bucket trees accessed under their mutexes (guarded_by), nil-bucket race fixed; file-store torn reads and history-level serialisability are not decided", "6 C07, 7.2, 10"),
  "C08": ("Persistence protocol at request boundaries: a successful CreateTable / ModifyColumnFamilies persists the live definition exactly once and a failed one not at all (ghost counter btMetaOps on Storage.Create/SetTableMeta), tmp file then rename order in SetTableMeta, Open does not delete and Create does, engines' row writes are a single Put/Delete of that row's key (ghost trace of leveldb operations); crash points inside leveldb/Create/Clear are not decided; DeleteTable persistence is an open known finding", "6 C08, 7.2, 10"),
  "C09": ("Both stores verified against one Store interface contract (behavioural subtyping, impl-variant units) plus their own contracts: metadata scrubbing/initialisation, URLs as functions of (base, bucket, name), file paths as functions of (dir, bucket, name), Add/UpdateMeta/Copy/Delete effects, file store statelessness via a ghost count of file-system mutations; the walk-order difference is an open known finding", "6 C09, 10"),
- "C10": ("Add stores metageneration 1 and a clock reading as generation whatever the caller passes, UpdateMeta keeps generation/md5/content and sets the given metageneration, handlers pass (metageneration read in this critical section)+1 (protocol ghost gcsReadMetagen); strict growth of generations only under the named clock assumption", "6 C10, 10"),
+ "C10": ("Add stores metageneration 1 and a clock reading as generation whatever the caller passes, UpdateMeta keeps generation/md5/content and sets the given metageneration, handlers pass (metageneration read in this critical section)+1 (protocol ghost gcsReadMetagen), rewrite reports the destination metadata only after a successful Store.Copy of exactly the request's source and destination (also onto itself); strict growth of generations only under the named clock assumption", "6 C10, 10"),
  "C11": ("greaterThanPrefix/lessThanPrefix against the prefix order (five byte-string lemmas as listed axioms), walk-callback invariants (count bound, recorded items carry the prefix and exceed the cursor, collapsed prefixes once, slice indices in bounds), parameter validation, page-token codec round trip; chain-of-pages statement argued; page-token progress and UTF-8 names are open known findings", "6 C11, 10"),
- "C12": ("CheckAndMutateRow: predicate evaluated on a deep-fresh copy, without a filter PredicateMatched == row has a cell, exactly req.TrueMutations / req.FalseMutations as selected is passed to applyMutations together with the unfiltered row, errors commit nothing (commit counter), updateRow only after a nil applyMutations", "6 C12, 10"),
+ "C12": ("CheckAndMutateRow: predicate evaluated on a deep-fresh copy (modifyCell returns fresh cells for transforming filters, so the stored row is not touched), without a filter PredicateMatched == row has a cell, exactly req.TrueMutations / req.FalseMutations as selected is passed to applyMutations together with the unfiltered row, errors commit nothing (commit counter), updateRow only after a nil applyMutations", "6 C12, 10"),
  "C13": ("ReadModifyWriteRow per rule (call-site assertions): unknown family rejected before any change, increment on a non-8-byte value rejected, new cell timestamp == max(clock truncated to ms, newest timestamp of that column), append concatenates to the newest value, increment is 64-bit wrapping arithmetic on the decoded newest value (stated at the encoder's argument), one commit after all rules, none on error", "6 C13, 10"),
- "C14": ("Registry semantics of CreateTable/DeleteTable/GetTable/ListTables (AlreadyExists/NotFound, exact key set, nothing else changes), ModifyColumnFamilies all-or-nothing with the exact per-family effect and persistence of the fully validated batch, DropRowRange (only keys with the prefix are deleted, Clear only for delete-all, schema untouched), responses are private copies, lock discipline", "6 C14, 10"),
+ "C14": ("Registry semantics of CreateTable/DeleteTable/GetTable/ListTables (AlreadyExists/NotFound, exact key set, nothing else changes), ModifyColumnFamilies all-or-nothing with the exact per-family effect and persistence of the fully validated batch, a request with a Drop persists the schema only after exactly one purge pass whose changed rows are written back after the iteration (never during it), DropRowRange (only keys with the prefix are deleted, Clear only for delete-all, schema untouched), responses are private copies, lock discipline", "6 C14, 10"),
  "C15": ("finishCompose (more than 32 sources and only that is answered 'too many sources', missing/nil source and destination, per-source preconditions before the single Add, validated protocol; content: exactly one Store.Get per source in request order, the bytes given to the single Store.Add are the concatenation in call order of what those Gets returned, appended into a buffer the function owns), handleGcsCopy path splitting in bounds for every input, destination object names may contain \"/o/\", destination key locked; copy store contracts; destination names containing \"/compose\" are an open known finding", "6 C15, 10"),
- "C16": ("applyGC proved for all rules/cells/clock values (result is a prefix, MaxNumVersions exact count, MaxAge boundary, Union/Intersection), table.gc callback: families without a rule untouched, changed flag true iff some column lost cells, a changed row and only a changed row is handed to updateRow, lock reversal balanced, quiescence guard; the stale-snapshot write-back after the lock reversal is an open known finding", "6 C16, 10"),
+ "C16": ("applyGC proved for all rules/cells/clock values (result is a prefix, MaxNumVersions exact count, MaxAge boundary, Union/Intersection), table.gc: the pass works in batches, each read, collected and written back inside one critical section (read protocol: btReadEpoch == epoch, row allocated in this critical section) and never during the iteration (btIterating); per row: families without a rule untouched, changed flag true iff some column lost cells, the rows of a batch are pairwise disjoint deep-fresh copies satisfying updateRow's preconditions; lock reversal balanced, quiescence guard", "6 C16, 10"),
  "C17": ("btreeRows and leveldbRows methods each verified against the same Rows interface contract (behavioural subtyping) over assumed btree/leveldb/protobuf contracts: Get returns nil or a deep-fresh well-formed row with that key, scans deliver such rows and stop on false, range bounds of the library scan equal the requested bounds; panics on library errors are listed as not claimed (environment failures)", "6 C17, 10"),
  "C19": ("Safety kernel only: countedLock.Lock/Unlock verified against an assumed one-slot channel protocol (send enabled iff slot empty, receive iff full; a false Lock leaves the slot unchanged and implies the context ended), TransientLockMap Lock/Unlock/Run/returnLockObj: refcount and map-entry bookkeeping under l.mu (guarded_by incl. the foreign lock), entries present iff referenced, Unlock panics iff the key is not held; deadlock freedom and lost wake-ups are not decided", "6 C19, 7.2, 10"),
  "C20": ("Zero-annotation safety sweep over every function of the three packages (nil dereference, index, slice bounds, type assertion, division, nil-map write, explicit panic) under stated wire/HTTP validity assumptions, plus preconditions of every call, lock balance, lock order and guarded_by obligations; races outside the lockset discipline, hangs in libraries and resource exhaustion are not decided; panics on storage-library errors are listed as not claimed", "6 C20, 7.2, 10"),
